@@ -182,4 +182,43 @@ theorem resumed_victim_is_the_selected_cgroup (top : List OomdModel.Kill.View) (
     exact ⟨this.2, this.1⟩
   · exact (OomdModel.Hook.deser_none_iff top r).2
 
+/-! ### the name space may change while the kill runs (swap stream of the correspondence check)
+
+`runKill` works on the *held* views (`CgroupContext`s with an open directory fd): every `cgroup.procs` read and every control
+file write of the model names a view id, never a path, so the theorems above are insensitive to what the paths name at any
+moment - the correspondence check's swap stream replaces a candidate's directory at its path inside the first `kill(2)` and
+evaluates the same clauses on the real plugins.  The kill-accounting xattrs are the exception in the implementation: they are
+written by path.  `xattr_by_path_follows_the_name_space` is the model-level statement of that recorded finding
+(known_findings.txt, class `writes_contained.xattr_by_path_after_swap`): whatever cgroup the victim's path is rebound to
+receives the write. -/
+
+/-- which cgroup (id) a path names at one instant -/
+abbrev NameSpace := String → Option Nat
+
+/-- rebinding one path, everything else as before (rename away + create, or rmdir + mkdir) -/
+def NameSpace.rebind (ns : NameSpace) (p : String) (other : Nat) : NameSpace :=
+  fun q => if q = p then some other else ns q
+
+/-- target of an access made through the held directory of `v`: `v`, whatever the name space -/
+def targetByHandle (_ns : NameSpace) (v : View) : Nat := v.id
+
+/-- target of an access made by `v`'s absolute path -/
+def targetByPath (ns : NameSpace) (v : View) : Option Nat := ns v.info.path
+
+theorem handle_access_ignores_the_name_space (ns ns' : NameSpace) (v : View) :
+    targetByHandle ns v = targetByHandle ns' v := rfl
+
+/-- **The recorded finding.**  For every victim and every other cgroup id there is a name space that differs from the one the
+victim was selected under only at the victim's path, and under it a by-path access (the `oomd_kill` accounting xattr written
+after the signals) lands on the other cgroup, while a by-handle access (the `cgroup.procs` reads) still lands on the victim. -/
+theorem xattr_by_path_follows_the_name_space (ns : NameSpace) (v : View) (other : Nat) (h0 : targetByPath ns v = some v.id)
+    (hne : other ≠ v.id) :
+    let ns' := ns.rebind v.info.path other
+    targetByPath ns' v = some other ∧ targetByPath ns' v ≠ targetByPath ns v ∧ targetByHandle ns' v = v.id ∧
+      ∀ q, q ≠ v.info.path → ns' q = ns q := by
+  refine ⟨by simp [targetByPath, NameSpace.rebind], ?_, rfl, ?_⟩
+  · simp [targetByPath, NameSpace.rebind] at h0 ⊢
+    rw [h0]; simpa using hne
+  · intro q hq; simp [NameSpace.rebind, hq]
+
 end C01
